@@ -394,6 +394,15 @@ func (s *serverSocket) leaveAll() {
 	s.adapter.DeleteAll(s.ID())
 }
 
+// Called when the socket is refused by a namespace middleware:
+// the socket will never be connected, so it must not remain in any room.
+func (s *serverSocket) cleanup() {
+	s.joinMu.Lock()
+	s.join = func(room ...Room) {}
+	s.joinMu.Unlock()
+	s.leaveAll()
+}
+
 func (s *serverSocket) ID() SocketID {
 	return s.id
 }
